@@ -553,6 +553,16 @@ func init() {
 	reg("runtime.Callers", func(in *Interp, fr *frame, args []Value) Value { return BV(64, 0) })
 	reg("runtime.FuncForPC", func(in *Interp, fr *frame, args []Value) Value { return (*Value)(nil) })
 
+	// --- encoding/json: reflection based; the encoded text is an opaque constant (its content is never
+	// inspected by the code under check; a harness that needs it must not rely on this model) ---
+	reg("encoding/json.Marshal", func(in *Interp, fr *frame, args []Value) Value {
+		return Tuple{byteSliceFromString("{\"opaque-json\":true}"), Iface{}}
+	})
+	reg("encoding/json.Unmarshal", func(in *Interp, fr *frame, args []Value) Value {
+		unsup("encoding/json.Unmarshal")
+		return nil
+	})
+
 	// --- strings.Builder: String() is unsafe.String(unsafe.SliceData(buf), len(buf)) ---
 	reg("(*strings.Builder).String", func(in *Interp, fr *frame, args []Value) Value {
 		st := (*args[0].(*Value)).(Struct)
@@ -1237,6 +1247,23 @@ func (in *Interp) fmtScalar(verb byte, flags string, v Value, t types.Type) Valu
 		}
 		if (verb == 'd' || verb == 'v') && flags == "" {
 			return fmtInt(x, signed)
+		}
+		// zero padded fixed-width hex of an unsigned value: exact, one symbolic character per nibble
+		if verb == 'x' && len(flags) >= 2 && flags[0] == '0' && !signed {
+			if n, err := strconv.Atoi(flags[1:]); err == nil && n >= int(x.w)/4 && n <= 64 {
+				out := make([]*Term, n)
+				for i := 0; i < n; i++ {
+					sh := uint(n-1-i) * 4
+					var nib *Term
+					if sh >= uint(x.w) {
+						nib = BV(8, 0)
+					} else {
+						nib = ZExt(Extract(x, uint8(sh+3), uint8(sh)), 8)
+					}
+					out[i] = Ite(Ult(nib, BV(8, 10)), Add(nib, BV(8, '0')), Add(nib, BV(8, 'a'-10)))
+				}
+				return mkStr(out)
+			}
 		}
 		return &SymStr{opq: in.ex.freshInternal("fmt.num", 64)}
 	case float64:
